@@ -247,8 +247,21 @@ func decDecodeString(s string) decOutcome {
 // between 2^32 and 2^63) on an uncapped tree so that the box survives; lengths
 // >= 2^63 are a recoverable makeslice panic and are always generated.
 func decCapped() bool {
-	o := decDeserialize([]byte{10, 0xfe, 0x00, 0x01, 0x00, 0x00})
-	return o.Class == "err" && o.Err == "toolarge"
+	tooLarge := func(b []byte) bool {
+		o := decDeserialize(b)
+		return o.Class == "err" && o.Err == "toolarge"
+	}
+	if !tooLarge([]byte{10, 0xfe, 0x00, 0x01, 0x00, 0x00}) {
+		return false
+	}
+	// the nested streams have their own decoder: an unknown record declaring
+	// 65536 bytes inside each of the four nested parts
+	for _, outer := range []byte{10, 20, 30, 40} {
+		if !tooLarge([]byte{outer, 6, 99, 0xfe, 0x00, 0x01, 0x00, 0x00}) {
+			return false
+		}
+	}
+	return true
 }
 
 // ---------------------------------------------------------------- generators
